@@ -29,7 +29,9 @@ RULE = ("seeded abstract VMs (0..8 devices on scsi/sata/ide/nvme with any bus:un
         "differencing children, mixed formats and types, typed disks nested in disks of any format/type to depth 4, look-alike "
         "elements); Parallels hardware lists (Hdd/CdRom/Fdd, nested Partition/SystemName, shuffled children). Compared: the "
         "disk list (VMX sorted, XML in document order), for VMX also the dictionary and look-ups: real code vs Lean model vs "
-        "writer truth. Non-trivial = at least one hard disk reported and at least one non-disk medium or decoy present.")
+        "writer truth. Every descriptor object (VMX, OVF, VBox, PVS) is then queried again 2..4 times on the same object (complete list, "
+        "next() then a second call listed, two iterations advanced alternately, a fresh query in the middle of a partial one): always the same list. "
+        "Non-trivial = at least one hard disk reported and at least one non-disk medium or decoy present.")
 ASSUMPTIONS = ["XML text -> element tree is not modelled: the model receives the tree built by defusedxml.ElementTree.fromstring (C19)",
                "xml.etree.ElementPath selector semantics (child, descendant, attribute and child-text predicates) are transcribed into "
                "Hv/Prim/XPath.lean; paths are compiled per run with the live xpath_tokenizer",
@@ -49,6 +51,63 @@ def canon_list(l):
 
 def dict_digest(items):
     return "D%d:" % len(items) + hashlib.sha256(repr(sorted(items)).encode("utf-8", "surrogatepass")).hexdigest()[:16]
+
+
+# --------------------------------------------------------------------------- histories on one descriptor object
+
+HIST_OPS = ("list", "peek-list", "interleave", "partial-fresh-rest", "two-lists")
+
+
+def gen_history(rng):
+    """2..4 further queries on the *same* object after the first complete `disks()`: complete again, peeked (`next(d1)`) then
+    listed through a second call, two iterations alive and advanced alternately, a fresh complete query in the middle of a
+    partial one. The disk list is a function of the document: every query must give the same list whatever happened before."""
+    return [rng.choice(HIST_OPS) for _ in range(rng.choice([2, 2, 3, 4]))]
+
+
+def history_answers(query, ops):
+    """`query()` = one call of disks() (a list or an iterator). One canonical answer per op."""
+    out = []
+    for op in ops:
+        try:
+            if op == "list":
+                out.append("H" + canon_list(list(query())))
+            elif op == "two-lists":
+                a = list(query())
+                b = list(query())
+                out.append("H" + canon_list(a) + "|" + canon_list(b))
+            elif op == "peek-list":
+                d1 = iter(query())
+                first = next(d1, None)
+                d2 = query()
+                out.append("H" + _h(first) + "|" + canon_list(list(d2)))
+            elif op == "interleave":
+                d1, d2 = iter(query()), iter(query())
+                a, b, live = [], [], [True, True]
+                while any(live):
+                    for k, (it, acc) in enumerate(((d1, a), (d2, b))):
+                        if live[k]:
+                            try:
+                                acc.append(next(it))
+                            except StopIteration:
+                                live[k] = False
+                out.append("H" + canon_list(a) + "|" + canon_list(b))
+            elif op == "partial-fresh-rest":
+                d1 = iter(query())
+                first = next(d1, None)
+                fresh = list(query())
+                out.append("H" + _h(first) + "|" + canon_list(fresh) + "|" + canon_list(list(d1)))
+            else:
+                raise ValueError(op)
+        except Exception:  # noqa
+            out.append("HE")
+    return out
+
+
+def _unlist(tok):
+    """inverse of canon_list"""
+    body = tok[1:]
+    return [_unhex(t) for t in body.split(",")] if body else []
 
 
 # --------------------------------------------------------------------------- VMX: appended re-assignments
@@ -313,7 +372,7 @@ def generate(seed, tier):
                 variant = "crossed" if i % 4 == 2 or rng.random() < 0.15 else None
             recipe = {"vm": vm, "fmt": fmt, "rseed": rng.getrandbits(32), "variant": variant}
             qs = _render(recipe)[3]
-            cases.append({"id": f"{fmt}{i}", "recipe": recipe, "queries": ["disks"] + (["dict"] + qs if fmt == "vmx" else [])})
+            cases.append({"id": f"{fmt}{i}", "recipe": recipe, "queries": ["disks"] + (["dict"] + qs if fmt == "vmx" else []), "hist": gen_history(rng)})
     return cases
 
 
@@ -348,6 +407,9 @@ def build(case):
             branches |= {"ovf-via-disk"} if vd else set()
             branches |= {"ovf-diskid-is-other-file-id"} if cr else set()
             branches |= {"ovf-diskid-is-other-file-id+both-forms"} if cr and vd and vf else set()
+    hist = case.get("hist", [])
+    answers += history_answers(lambda: list(truth), hist)      # the same list, whatever was asked before
+    branches |= {"hist-" + op for op in hist}
     branches |= {"has-" + k for k in kinds}
     branches.add("disks=%s" % (len(truth) if len(truth) < 4 else "4+"))
     nt = bool(truth) and (bool(kinds - set(G.DISK_KINDS)) or r.get("variant") is not None or len(vm["unrelated"]) > 0 and fmt == "vmx")
@@ -375,23 +437,27 @@ def impl_run(case, built):
             errors["0"] = f"{type(e).__name__}: {e}"[:300]
         answers.append(dict_digest(list(vmx.attr.items())))
         answers += [_h(vmx.attr.get(q)) for q in built.queries]
+        answers += history_answers(vmx.disks, case.get("hist", []))
         return {"answers": answers, "errors": errors}
+    obj = None
     try:
         if fmt == "ovf":
             from dissect.hypervisor.descriptor.ovf import OVF
-            got = list(OVF(io.StringIO(text)).disks())
+            obj = OVF(io.StringIO(text))
         elif fmt == "vbox":
             from dissect.hypervisor.descriptor.vbox import VBox
-            got = list(VBox(io.StringIO(text)).disks())
+            obj = VBox(io.StringIO(text))
         else:
             from dissect.hypervisor.descriptor.pvs import PVS
-            got = list(PVS(io.StringIO(text)).disks())
-        answers.append(canon_list(got))
+            obj = PVS(io.StringIO(text))
+        answers.append(canon_list(list(obj.disks())))
     except Exception as e:  # noqa
         answers.append("E")
         errors["0"] = f"{type(e).__name__}: {e}"[:300]
     if fmt == "ovf":
         answers.append("spec=ok")
+    # the same object is queried again (see gen_history)
+    answers += history_answers(obj.disks, case.get("hist", [])) if obj is not None else ["HE"] * len(case.get("hist", []))
     return {"answers": answers, "errors": errors}
 
 
@@ -427,6 +493,19 @@ def _unhex(t):
 
 
 def model_parse(case, built, out):
+    """the model's disk list is a pure function of the document: its answers to the history are derived from that one list"""
+    r = _model_parse(case, built, out)
+    a = r.get("answers")
+    if a and case.get("hist"):
+        if a[0].startswith("L"):
+            lst = _unlist(a[0])
+            r["answers"] = a + history_answers(lambda: list(lst), case["hist"])
+        else:
+            r["answers"] = a + ["HE"] * len(case["hist"])
+    return r
+
+
+def _model_parse(case, built, out):
     if not out:
         return {"answers": None, "wf": None}
     line = out[0]
@@ -465,7 +544,7 @@ def search(seed, broken, budget):
             variant = {"vmx": "reassign", "vbox": "nested" if i % 2 else None, "ovf": "crossed" if i % 2 else None}.get(fmt)
             recipe = {"vm": vm, "fmt": fmt, "rseed": rng.getrandbits(32), "variant": variant}
             qs = _render(recipe)[3]
-            cases.append({"id": f"s{fmt}{i}", "recipe": recipe, "queries": ["disks"] + (["dict"] + qs if fmt == "vmx" else [])})
+            cases.append({"id": f"s{fmt}{i}", "recipe": recipe, "queries": ["disks"] + (["dict"] + qs if fmt == "vmx" else []), "hist": gen_history(rng)})
     return cases
 
 
